@@ -294,8 +294,23 @@ def _on_alarm(signum, frame):
     raise _Alarm()
 
 
+_RETRIES_LEFT = [3]
+
+
 def guarded(fn, seconds=8):
-    """run fn() under a wall-clock alarm; returns ('ok', value) | ('err', name) | ('timeout', None)"""
+    """run fn() under a wall-clock alarm; returns ('ok', value) | ('err', name) | ('timeout', None).
+    A call that normally takes milliseconds can exceed a short alarm when the machine is saturated (other checks, builds):
+    the first few timeouts of a process are therefore tried ONCE more with a longer alarm before they are reported - a call
+    that really does not return times out again (and after three such retries every further timeout is reported at once,
+    so a change that makes a loop endless costs a bounded extra time)."""
+    r = _guarded_once(fn, seconds)
+    if r[0] == "timeout" and seconds < 30 and _RETRIES_LEFT[0] > 0:
+        _RETRIES_LEFT[0] -= 1
+        r = _guarded_once(fn, 30)
+    return r
+
+
+def _guarded_once(fn, seconds):
     try:
         return _guarded(fn, seconds)
     except _Alarm:
